@@ -53,12 +53,29 @@ def install():
 
     nest_asyncio._patch_asyncio()  # pure-Python Task/Future, as in production under nest_asyncio
 
-    import plumpy.processes as processes
-
-    processes.time = _TimeShim()
-    processes.uuid = _UuidShim()
+    _install_clock_and_id_shims()
     _installed = True
     return plumpy
+
+
+def _install_clock_and_id_shims():
+    """plumpy reads the wall clock and draws uuids in plumpy.processes (time.time(), uuid.uuid4()); shim whatever
+    spelling of those imports the tree under test uses, in every plumpy module."""
+    import time as real_time
+    import uuid as real_uuid
+
+    for name, module in list(sys.modules.items()):
+        if not (name == 'plumpy' or name.startswith('plumpy.')) or module is None:
+            continue
+        namespace = vars(module)
+        if namespace.get('time') is real_time:
+            namespace['time'] = _TimeShim()
+        elif namespace.get('time') is real_time.time:
+            namespace['time'] = _TimeShim.time
+        if namespace.get('uuid') is real_uuid and name.endswith('processes'):
+            namespace['uuid'] = _UuidShim()
+        if namespace.get('uuid4') is real_uuid.uuid4:
+            namespace['uuid4'] = _UuidShim.uuid4
 
 
 class _TimeShim:
